@@ -110,6 +110,13 @@ TEXT.update({
             "TSan happens-before analysis on the executed regions; schedules of regions never entered are not covered"),
 })
 
+TEXT.update({
+    "C18": ("memsan", "ASan+UBSan (AVX2 and AVX-512 builds) on exact-size allocations and smallest shapes with per-case attribution, LeakSanitizer on object lifetimes, valgrind memcheck slice, stack/heap fill differential",
+            "The monitors of C03-C09, C13, C14, C16, C17, C19 are re-run in ASan/UBSan builds with exact-size buffers; object construct/use/destroy histories run with leak detection; a scalar+AVX2 "
+            "slice runs under memcheck with origin tracking; production-flag builds with pattern- vs zero-initialised stack and different MALLOC_PERTURB_ must produce identical output digests.",
+            "red-zone and shadow-memory tools see only what the workloads reach; intra-object overflows and AVX-512 uninitialised reads that do not reach an output are out of reach"),
+})
+
 NOT_YET = "check not built yet in this revision of /verif (planned, see DESIGN.md section 3)"
 
 
